@@ -312,7 +312,7 @@ def scenarios(tier):
         if mech != 'fallback':
             out.append({'mech': mech, 'firers': 1, 'events': 2, 'stale_fd': True})
             out.append({'mech': mech, 'firers': 2, 'events': 2, 'stale_fd': True, 'task': True})
-            for gone in (['w-close-remove-discard'], ['rw-close-discard-discard'], ['r-discard-open'], ['r-close-discard'], ['r-close-remove-discard'],
+            for gone in (['w-close-remove-discard'], ['rw-close-discard-discard', 'r-discard-open'],
                          ['r-discard-open', 'w-close-remove-discard', 'r-close-discard', 'rw-close-discard-discard', 'r-close-remove-discard']):
                 out.append({'mech': mech, 'firers': 1, 'events': 1, 'gone_fd': gone})
     return out
@@ -325,10 +325,11 @@ def plan(tier, seed):
         for part in range(nparts):
             specs.append({'kind': 'one', 'scn': scn, 'part': part, 'parts': nparts, 'stride_out': 5 if tier == 'quick' else 1})
         heavy = scn.get('via') == 'detached'      # (its schedules are about ten times as long: join, leave and join again)
-        if tier != 'quick' and not heavy:
+        light = bool(scn.get('gone_fd'))          # (the set-up differs, the schedule space does not: every single preemption point, few random ones)
+        if tier != 'quick' and not heavy and not light:
             for part in range(8):
                 specs.append({'kind': 'two', 'scn': scn, 'part': part, 'parts': 8})
-        nrand = 2 if tier == 'quick' else 8
+        nrand = 2 if tier == 'quick' or light else 8
         for r in range(nrand):
             specs.append({'kind': 'random', 'scn': scn, 'seed': seed * 10007 + r, 'n': (40 if tier == 'quick' else 300) // (5 if heavy else 1)})
     if tier != 'quick':
